@@ -98,8 +98,9 @@ def canon_real(rng):
 
 class G:
     """draws an object together with its style"""
-    def __init__(self, rng, wild, ids, deep_parens=False):
+    def __init__(self, rng, wild, ids, deep_parens=False, high=False):
         self.rng = rng
+        self.high = high          # strings with many bytes >= 0x80 (the 'png' profiles)
         self.wild = wild          # 0 = lopdf-like spellings, 1 = every freedom
         self.ids = ids
         self.deep = deep_parens
@@ -115,6 +116,8 @@ class G:
     def string(self):
         rng = self.rng
         r = rng.random()
+        if self.high and r < 0.6:
+            return bytes(rng.choice([rng.randint(0x80, 0xff), rng.randint(0xf0, 0xff), rng.getrandbits(8)]) for _ in range(rng.randint(1, 48)))
         if r < 0.4:
             return rbytes(rng, 16)
         if r < 0.7:
@@ -190,18 +193,38 @@ class G:
 
 
 AHX = [False]        # known finding C02-asciihex: ASCIIHexDecode on structural streams only in the 'ahx' profile
+PNG = [False]        # the 'png' profiles: every structural stream is Flate-encoded with a PNG predictor
+
+
+def g_row_types(rng):
+    """PNG filter type per row (None Sub Up Average Paeth), consumed cyclically by the reference writer"""
+    m = rng.random()
+    if m < 0.08:
+        return []                                   # all rows None
+    if m < 0.35:
+        return [rng.randint(0, 4)]                  # one type for every row (what most producers do)
+    if m < 0.55:
+        return [rng.choice([3, 4]) if rng.random() < 0.7 else rng.randint(0, 4) for _ in range(rng.randint(2, 6))]
+    return [rng.randint(0, 4) for _ in range(rng.randint(2, 12))]
+
+
+def g_pred(rng):
+    return L('pred', str(rng.randint(0, 5)), str(rng.choice([1, 2, 3, 4, 5, 7, 8, 16, 31])), L(*[str(t) for t in g_row_types(rng)]),
+             str(rng.choice([0, 0, 0, 1, 2, 3])), str(int(rng.random() < 0.2)), str(int(rng.random() < 0.3)))
 
 
 def g_sfilter(rng, wild):
     if AHX[0] and rng.random() < 0.6:
         return L('ahx', str(rng.randint(0, 1)), L(*[str(rng.randint(0, 40)) for _ in range(rng.randint(0, 5))]))
+    if PNG[0]:
+        return rng.choice([L('flate', str(rng.choice([0, 1, 4, 30, 65534])), g_pred(rng)), L('flate', '0', g_pred(rng)),
+                           L('a85flate', str(rng.choice([0, 7, 65534])), g_pred(rng))])
     if rng.random() > wild:
         return 'none'
     def pred():
-        if rng.random() < 0.5:
+        if rng.random() < 0.4:
             return 'none'
-        return L('pred', str(rng.randint(0, 5)), str(rng.choice([1, 2, 3, 4, 5, 7, 8])),
-                 L(*[str(rng.randint(0, 4)) for _ in range(rng.randint(0, 6))]))
+        return g_pred(rng)
     return rng.choice(['none', 'a85', L('flate', str(rng.choice([0, 1, 4, 30, 65534])), pred()),
                        L('a85flate', str(rng.choice([0, 7, 65534])), pred())])
 
@@ -233,9 +256,15 @@ def gen_write(rng, profile):
     wild = {'plain': 0.0, 'mild': 0.4, 'wild': 1.0}[profile['lex']]
     RAWCR[0] = profile.get('rawcr', False)
     AHX[0] = profile.get('ahx', False)
+    PNG[0] = png = profile.get('png', False)
     n = rng.choice([1, 2, 3, 5, 8, 12])
+    if png:
+        n = rng.choice([3, 5, 8, 12])
     nums = rng.sample(range(1, max(3 * n, 20)), n)
-    g = G(rng, wild, nums, deep_parens=profile.get('deep', False))
+    if png and rng.random() < 0.5 and 1 not in nums:
+        nums[rng.randrange(n)] = 1
+    g = G(rng, wild, nums, deep_parens=profile.get('deep', False), high=png)
+    big = None
     objs = []      # (num, gen, objsx, ostyle, is_stream)
     lens = []
     free_nums = [k for k in range(1, max(3 * n, 20) + 8) if k not in nums]
@@ -243,6 +272,16 @@ def gen_write(rng, profile):
     for num in nums:
         gen = 0 if rng.random() < 0.8 else rng.choice([1, 2, 65535])
         r = rng.random()
+        if png and profile.get('big') and big is None:
+            # a file above 32 KiB: the offsets behind this stream have bytes >= 0x80
+            content = bytes([rng.getrandbits(8)]) * rng.randint(32500, 34000) if rng.random() < 0.7 else bytes(rng.getrandbits(8) for _ in range(rng.randint(32500, 60000)))
+            d, ds = g.dict(1, [(b'Length', I(len(content)), 'def')])
+            objs.append((num, gen, L('st', d, xb(content)), ds, True))
+            big = num
+            continue
+        if png and r < 0.3 and rng.random() < 0.6:
+            r = 0.3 + rng.random() * 0.7         # fewer streams, more candidates for the object streams
+            gen = 0
         if r < 0.3:
             content = rng.choice([b'', b'BT /F1 12 Tf (Hi) Tj ET', rbytes(rng, 60), b'endstream', b'\r', b'\n', b'x\r\n', b'\r\nendstream\nendobj\n',
                                   bytes(rng.getrandbits(8) for _ in range(rng.randint(0, 300)))])
@@ -324,6 +363,9 @@ def gen_write(rng, profile):
     order = [o[0] for o in objs if o[0] not in comp] + [e for e in extra_ids if xkind != 'stream' or e != xid]
     if rng.random() < 0.7:
         rng.shuffle(order)
+    if big is not None and rng.random() < 0.8:
+        order.remove(big)
+        order.insert(rng.choice([0, 0, 1]) if order else 0, big)
     junk = b''
     if rng.random() < wild * 0.5:
         junk = rng.choice([b'\n', b'\xef\xbb\xbf', b'junk before the header\r\n', b'%!PS-Adobe\n', rbytes(rng, 30).replace(b'%PDF-', b'')])
@@ -333,7 +375,7 @@ def gen_write(rng, profile):
               L(*ostms), xs,
               str(rng.randint(0, 2)) if wild else '1', str(rng.choice([0, 0, 1, 2]) if wild else 0), str(rng.choice([0, 0, 1]) if wild else 0),
               str(rng.randint(0, 2)) if wild else '1', rng.choice(['none', '0', '1', '2']) if wild else '1')
-    tags = {'kind': 'load-%s-%s%s' % (xkind, profile['lex'], '-objstm' if ostms else ''), 'ignore': extra_ids, 'nontrivial': True}
+    tags = {'kind': 'load-%s-%s%s%s' % (xkind, profile['lex'], '-objstm' if ostms else '', ('-png-big' if big is not None else '-png') if png else ''), 'ignore': extra_ids, 'nontrivial': True}
     return L('write', style, adoc), tags
 
 
@@ -344,6 +386,8 @@ PROFILES = [
     ({'lex': 'wild', 'xref': 'stream', 'objstm': True}, 4),
     ({'lex': 'wild', 'xref': 'table', 'rawcr': True}, 1), ({'lex': 'wild', 'xref': 'stream', 'objstm': True, 'rawcr': True}, 1),
     ({'lex': 'mild', 'xref': 'table', 'deep': True}, 1), ({'lex': 'mild', 'xref': 'stream', 'objstm': True, 'ahx': True}, 1),
+    ({'lex': 'plain', 'xref': 'stream', 'objstm': True, 'png': True}, 1), ({'lex': 'mild', 'xref': 'stream', 'objstm': True, 'png': True}, 2),
+    ({'lex': 'mild', 'xref': 'stream', 'png': True, 'big': True}, 1), ({'lex': 'plain', 'xref': 'stream', 'objstm': True, 'png': True, 'big': True}, 1),
 ]
 
 
